@@ -22,8 +22,6 @@ package main
 
 import (
 	"encoding/json"
-	"os"
-	"runtime/pprof"
 	"fmt"
 	"sort"
 	"strings"
@@ -330,12 +328,6 @@ func describe(c Case) string {
 
 func main() {
 	r := ev.Start("C16")
-	if pf := os.Getenv("C16_PROF"); pf != "" {
-		f, _ := os.Create(pf)
-		pprof.StartCPUProfile(f)
-		defer pprof.StopCPUProfile()
-		prof = true
-	}
 	r.Rule("venum: (original buffer kind x chunking into <=3 pieces x failure position j in [0,size] or none) x (handler script of <=2 (thorough 3) scripted answers: translated error | same error | replacement buffer of every kind/chunking/second failure position/wrong content) x (consumer incl. every ReadAt(off,len), ToChunkReader(off,max), read size and early Close point). quick = every original x core scripts x every consumer UNION core originals x every script x core consumers; thorough = the full product plus the same union with empty pieces and for a 4-byte object. non-trivial = OnError was invoked at least once in the case")
 	r.Assume("the handler only supplies replacement buffers created for the SAME digest; NewValidatedBufferFromByteSlice replacements always hold the right content (that constructor declares the data valid, so a wrong one is the handler's fault); wrong-content replacements are CAS buffers (byte slice / reader / chunk reader)")
 	r.Assume("'each byte exactly once or an error' is read as: successful completion => exactly content[off:]; when every buffer involved holds the right content, the bytes delivered before an error form a prefix of content[off:] and the only error the consumer may see is the one the handler returned (a data-integrity error there means a duplicated/skipped range)")
@@ -345,6 +337,8 @@ func main() {
 	r.Assume("sources released exactly once is included at the requester's instruction (Buffer contract: exactly one consuming call releases the resources); reads after Close are not judged")
 	r.Assume("the stream-clone original is a clone of a plain CAS reader/chunk-reader buffer; a clone of a buffer with a background task is left to C15 (known defect F1 lives there)")
 	r.Assume("ReadAt is exercised for 0<=off<=size and 0<=len<=size+1; nil vs io.EOF of a short ReadAt is not judged, n and the bytes are; offsets outside [0,size] for ToChunkReader only check Done/close/no-panic")
+	r.Assume("quick tier does not run the full product: it pairs every original (all chunkings, all failure positions) with the core handler scripts under every consumer, and the core originals with every handler script (all replacement chunkings / second failure positions) under the core consumers; clone and nested families pair every original with core consumers and core originals with every consumer; thorough runs the full product for the 5-byte object and the union again with empty pieces, third answers and a 4-byte object")
+	r.Assume("liveness: a consumer call that has not returned after 180 s wall (cases take microseconds) is reported as a hang violation and ends the run; no outcome of a terminating case depends on time")
 	r.Assume("a background task that itself fails is not exercised (the task error is not an I/O error of an underlying buffer)")
 
 	if r.Replay != "" {
@@ -540,13 +534,8 @@ func main() {
 			r.Note("plain outcome classes: " + strings.Join(cl, "; "))
 		}
 	}
-	if prof {
-		pprof.StopCPUProfile()
-	}
 	r.Finish()
 }
-
-var prof bool
 
 // ---- liveness watchdog ----------------------------------------------------------
 
